@@ -328,6 +328,9 @@ func editDistance(a, b string) int {
 // effectKey: the effect, the branch conditions under which it happens, and the rejecting guards
 // that have been passed before it (so that a check moved behind the action it protects shows).
 func effectKey(f *FuncFacts, e *Event) string {
+	if e.Kind == "release" {
+		return e.Head()
+	}
 	k := e.Full() + " when " + strings.Join(f.eventContext(e), " && ")
 	set := map[string]bool{}
 	for ff, ev := f, e; ev != nil; ff, ev = ev.inl, ev.inner {
@@ -379,6 +382,14 @@ func checkEffects(p *Program, r *Report, f *FuncFacts, sp *guardSpec, sfn string
 			k := renameParams(effectKey(f, e), cur, sp.params)
 			have[k]++
 			pos[k] = p.pos(e.Pos)
+			if e.Kind == "release" {
+				have[k] = 1 // presence only
+			}
+		}
+		for k := range want {
+			if strings.HasPrefix(k, "release:") {
+				want[k] = 1
+			}
 		}
 		var ks []string
 		for k := range want {
